@@ -659,6 +659,102 @@ def _stmt_texts(mod, fnode):
     return out
 
 
+def _tiling_facts(mod, f):
+    """BoutMesh.__init__ tiles the global index rectangle: x by the cumulative sums of the first
+    region's nx list, y by a running sum of the regions' ny (with guards) in the equilibrium's
+    region order; block (region, segment i) is the product of x slice i and the region's y slice.
+    Decided on values (temporaries seen through, the running sum followed through the loop body),
+    not on how the statements are spelled."""
+    import copy
+    fn = f.node
+    regions_iter = (K("self.equilibrium.regions.values()"), K("list(self.equilibrium.regions.values())"))
+
+    def val_of(target_text, calls=True):
+        vs = [inline_temporaries(fn, n.value, inline_calls=calls, keep=("eq_region0",)) for n in walk_own(fn) if isinstance(n, ast.Assign) and T(mod, n.targets[0]) == target_text]
+        return T(mod, vs[0]) if len(vs) == 1 else None
+
+    facts = {}
+    xs = val_of("self.x_startinds")
+    facts["x sizes are the first region's nx list"] = xs in (K("numpy.cumsum([0] + list(eq_region0.nx))"), K("numpy.cumsum([0, *eq_region0.nx])"))
+    facts["x start indices are their cumulative sum"] = bool(xs) and xs.startswith("numpy.cumsum(")
+    facts["x slices are consecutive [x_startinds[i], x_startinds[i+1])"] = _x_slices_consecutive(mod, f)
+    # the y loop: running sum
+    yloop = None
+    for n in walk_own(fn):
+        if isinstance(n, ast.For) and any(isinstance(x, ast.Assign) and isinstance(x.targets[0], ast.Subscript) and T(mod, x.targets[0].value) == "y_regions" for x in n.body):
+            yloop = n
+    consecutive = order = extents = noguards = False
+    if yloop is not None and isinstance(yloop.target, ast.Tuple) and len(yloop.target.elts) == 2 and all(isinstance(e, ast.Name) for e in yloop.target.elts):
+        kname, rname = yloop.target.elts[0].id, yloop.target.elts[1].id
+        order = T(mod, yloop.iter) == K("self.equilibrium.regions.items()")
+        accs = [n.targets[0].id for n in fn.body if isinstance(n, ast.Assign) and isinstance(n.targets[0], ast.Name) and isinstance(n.value, ast.Constant) and n.value.value == 0
+                and n.lineno < yloop.lineno and any((isinstance(x, ast.Assign) and isinstance(x.targets[0], ast.Name) and x.targets[0].id == n.targets[0].id)
+                        or (isinstance(x, ast.AugAssign) and isinstance(x.target, ast.Name) and x.target.id == n.targets[0].id) for x in yloop.body)]
+        if len(accs) == 1:
+            acc = accs[0]
+            env = {acc: ast.Name(id="ACC", ctx=ast.Load())}
+
+            class Sub(ast.NodeTransformer):
+                def visit_Name(self, n):
+                    return copy.deepcopy(env[n.id]) if isinstance(n.ctx, ast.Load) and n.id in env else n
+
+            stored = None
+            for st in yloop.body:
+                if isinstance(st, ast.Assign) and len(st.targets) == 1:
+                    v = Sub().visit(copy.deepcopy(st.value))
+                    if isinstance(st.targets[0], ast.Name):
+                        env[st.targets[0].id] = v
+                    elif T(mod, st.targets[0]) == "y_regions[%s]" % kname:
+                        stored = T(mod, v)
+                elif isinstance(st, ast.AugAssign) and isinstance(st.op, ast.Add) and isinstance(st.target, ast.Name) and st.target.id in env:
+                    env[st.target.id] = ast.BinOp(left=env[st.target.id], op=ast.Add(), right=Sub().visit(copy.deepcopy(st.value)))
+            ny = "%s.ny(0)" % rname
+            consecutive = stored in ("slice(ACC,ACC+%s,None)" % ny, "slice(ACC,ACC+%s)" % ny) and T(mod, env[acc]) in ("ACC+%s" % ny,)
+            extents = ny in (stored or "")
+        noguards = any(isinstance(x, ast.Expr) and T(mod, x.value) == K("self.y_regions_noguards.append(%s.ny_noguards)" % rname) for x in yloop.body)
+    facts["y slices are consecutive: each region starts where the previous one ended"] = consecutive
+    facts["y extents are the regions' ny including their boundary guards"] = extents
+    facts["regions are visited in the equilibrium's region order"] = order
+    # the product
+    prod = False
+    for n in walk_own(fn):
+        if isinstance(n, ast.Assign) and isinstance(n.targets[0], ast.Subscript) and T(mod, n.targets[0].value) == "self.region_indices":
+            env = {}
+            whole = set()
+            cur = n
+            parents = {ch: p for p in ast.walk(fn) for ch in ast.iter_child_nodes(p)}
+            while cur in parents:
+                cur = parents[cur]
+                if isinstance(cur, ast.For):
+                    it, tg = T(mod, cur.iter), cur.target
+                    if isinstance(tg, ast.Name) and it in (K("self.equilibrium.regions"), K("self.equilibrium.regions.keys()"), K("y_regions"), K("y_regions.keys()")):
+                        env[tg.id] = "K"; whole.add("y")
+                    elif isinstance(tg, ast.Tuple) and len(tg.elts) == 2 and it == K("y_regions.items()"):
+                        env[tg.elts[0].id] = "K"; env[tg.elts[1].id] = "y_regions[K]"; whole.add("y")
+                    elif isinstance(tg, ast.Name) and it == K("range(len(x_regions))"):
+                        env[tg.id] = "I"; whole.add("x")
+                    elif isinstance(tg, ast.Tuple) and len(tg.elts) == 2 and it == K("enumerate(x_regions)"):
+                        env[tg.elts[0].id] = "I"; env[tg.elts[1].id] = "x_regions[I]"; whole.add("x")
+
+            def sub(e):
+                e = copy.deepcopy(inline_temporaries(fn, e, keep=tuple(env)))
+                for x in ast.walk(e):
+                    if isinstance(x, ast.Name) and x.id in env and "[" not in env[x.id]:
+                        x.id = env[x.id]
+                t = T(mod, e)
+                for k_, v_ in env.items():
+                    if "[" in v_:
+                        import re as _re
+                        t = _re.sub(r"\b%s\b" % k_, v_, t)
+                return t
+            prod = whole == {"x", "y"} and sub(n.targets[0].slice) in ("self.region_lookup[K,I]", "self.region_lookup[(K,I)]") and sub(n.value) == "numpy.index_exp[x_regions[I],y_regions[K]]"
+    facts["every (region, segment) gets the product of its x and y slices"] = prod
+    ny_ = val_of("self.ny")
+    facts["global nx, ny are the sums"] = val_of("self.nx") == K("sum(eq_region0.nx)") and ny_ in tuple(K("sum(r.ny(0) for r in %s)" % it) for it in ("self.equilibrium.regions.values()", "list(self.equilibrium.regions.values())"))
+    facts["no-guard block sizes recorded in the same order"] = noguards
+    return facts
+
+
 def _x_slices_consecutive(mod, f):
     """x_regions[i] == slice(x_startinds[i], x_startinds[i+1], None) for every i, whether the
     generator runs over indices or over zip(x_startinds[:-1], x_startinds[1:])"""
@@ -703,19 +799,7 @@ def _connections_translated(mod, g):
 def r3(prog, rep):
     f = prog.func(MESH, "BoutMesh.__init__")
     mod = f.module
-    st = _stmt_texts(mod, f.node)
-    has = lambda *xs: all(K(x) in st for x in xs)
-    facts = {
-        "x sizes are the first region's nx list": has("x_sizes=[0]+list(eq_region0.nx)"),
-        "x start indices are their cumulative sum": has("self.x_startinds=numpy.cumsum(x_sizes)"),
-        "x slices are consecutive [x_startinds[i], x_startinds[i+1])": _x_slices_consecutive(mod, f),
-        "y slices are consecutive: each region starts where the previous one ended": has("y_total_new=y_total+this_ny", "reg_slice=slice(y_total,y_total_new,None)", "y_total=y_total_new", "y_total=0"),
-        "y extents are the regions' ny including their boundary guards": has("this_ny=region.ny(0)"),
-        "regions are visited in the equilibrium's region order": has("forregname,regioninself.equilibrium.regions.items():", "y_regions[regname]=reg_slice"),
-        "every (region, segment) gets the product of its x and y slices": has("self.region_indices[self.region_lookup[(reg_name, i)]] = numpy.index_exp[x_regions[i], y_regions[reg_name]]"),
-        "global nx, ny are the sums": has("self.nx=sum(eq_region0.nx)", "self.ny = sum(r.ny(0) for r in self.equilibrium.regions.values())"),
-        "no-guard block sizes recorded in the same order": has("self.y_regions_noguards.append(region.ny_noguards)"),
-    }
+    facts = _tiling_facts(mod, f)
     for k, ok in facts.items():
         rep.ob("R3", "tiling: " + k, ok, f.site(), "", key="tiling/" + k)
     # region numbering in Mesh.__init__
